@@ -121,7 +121,7 @@ class FamilyRun:
         mism = []
         for i in sorted(self.parsed):
             hl = corr.strip_api(self.impl[i]["lines"])
-            ml = mprogs.get(i, {"lines": []})["lines"]
+            ml = corr.strip_api(mprogs.get(i, {"lines": []})["lines"])
             if hl != ml:
                 k = 0
                 while k < min(len(hl), len(ml)) and hl[k] == ml[k]:
@@ -1408,8 +1408,99 @@ class C04:
         return 0
 
 
+
+def tls_trace_check(fam, lines):
+    """Property-level checks of C17 on the implementation's own output."""
+    viol = []
+    for i, p in fam.parsed.items():
+        raw = [l for l in fam.impl[i]["lines"] if not l.startswith("API ")]
+        bodies = [[o.strip() for o in b.split(";") if o.strip()] for b in lines[i].split("|")[3:]]
+        it_lines = []
+        cur = None
+        for l in raw:
+            if l.startswith("BEGIN "):
+                cur = []
+                it_lines.append(cur)
+            elif cur is not None and not l.startswith(("END ", "RUN ")):
+                cur.append(l)
+        bad = None
+        for n, ls in enumerate(it_lines):
+            tls_init = {}
+            tls_drop = {}
+            lazy_init = {}
+            lazy_drop = {}
+            last_o = {}
+            for pos, l in enumerate(ls):
+                w = l.split()
+                if w[0] == "I" and w[1] == "tls":
+                    k = (int(w[2]), int(w[3]))
+                    if k in tls_init:
+                        bad = f"thread-local {k[0]} initialised twice by thread {k[1]}"
+                    tls_init[k] = pos
+                elif w[0] == "D" and w[1] == "tls":
+                    k = (int(w[2]), int(w[3]))
+                    if k in tls_drop or k not in tls_init:
+                        bad = f"thread-local {k[0]} of thread {k[1]} dropped twice or without initialisation"
+                    tls_drop[k] = pos
+                elif w[0] == "I" and w[1] == "lazy":
+                    if int(w[2]) in lazy_init:
+                        bad = f"lazy static {w[2]} initialised twice in one execution"
+                    lazy_init[int(w[2])] = pos
+                elif w[0] == "D" and w[1] == "lazy":
+                    if int(w[2]) in lazy_drop or int(w[2]) not in lazy_init:
+                        bad = f"lazy static {w[2]} dropped twice or without initialisation"
+                    lazy_drop[int(w[2])] = pos
+                elif w[0] == "O":
+                    b, pc = int(w[1]), int(w[2])
+                    last_o[b] = pos
+                    if b < len(bodies) and pc < len(bodies[b]):
+                        ins = bodies[b][pc].split()
+                        if ins[0] == "tw" and w[3] == "-" and (int(ins[1]), b) not in tls_init:
+                            bad = f"thread {b} used thread-local {ins[1]} before it was initialised for that thread"
+                        if ins[0] == "tw" and (int(ins[1]), b) in tls_drop:
+                            bad = f"thread {b} used thread-local {ins[1]} after it was dropped"
+                        if ins[0] == "lz":
+                            if int(ins[1]) not in lazy_init:
+                                bad = f"lazy static {ins[1]} read before initialisation"
+                            elif w[3] != str(41 + int(ins[1])):
+                                bad = f"lazy static {ins[1]} returned {w[3]}"
+                            if int(ins[1]) in lazy_drop:
+                                bad = f"lazy static {ins[1]} used after it was dropped"
+            finished = (n < len(it_lines) - 1) or (p["run"] or "").startswith("ok")
+            if finished and not bad:
+                for k in tls_init:
+                    if k not in tls_drop:
+                        bad = f"thread-local {k[0]} of thread {k[1]} was never dropped"
+                    elif tls_drop[k] < last_o.get(k[1], -1):
+                        bad = f"thread-local {k[0]} of thread {k[1]} dropped before the thread finished"
+                for k in lazy_init:
+                    if k not in lazy_drop:
+                        bad = f"lazy static {k} was not dropped at the end of the iteration"
+            if bad:
+                viol.append({"prog": lines[i], "deviation": "tls:" + bad, "iteration": n + 1})
+                break
+    return viol
+
+
+class C17(OutcomeCheck):
+    technique = "Coq model of LocalKey / Lazy (per-thread key set, per-execution registry with its synchronisation point) + whole-run correspondence + trace checks of init-once / drop / re-init + outcome oracle"
+    rule = "F-tls: 1-2 thread-locals and 1-2 lazy statics touched from 1-4 threads in all orders, repeated and nested use, use before/after join, unjoined threads; every iteration's init/drop lines are checked"
+    level_text = ("The model carries the per-thread set of initialised keys and the per-execution lazy-static registry (value cell + Synchronize); whole-run correspondence compares every initialisation, every "
+                  "destructor and every value with the implementation on the F-tls core (destructor order canonicalised: it is HashMap order in the code). On the implementation's traces: one initialisation "
+                  "per thread and key, destruction when the thread finishes, one initialisation per execution for a lazy static, all threads read the initialised value (a loom cell written by the initialiser, so "
+                  "initialisation happens-before every access or a race is reported), destruction at the end of the iteration, re-initialisation in the next one. Proved: fresh state per iteration (C16 theorems), "
+                  "the race test exactness used for the init-happens-before-access edge (C04 theorems).")
+    level_note = "partial: mostly correspondence + trace checks; Lazy::get has no scheduling point, so which thread initialises is decided by the surrounding operations only"
+    ref_mode = "refw"
+    det_family = lambda self, ctx: gen.fam_tls_core(ctx.tier)
+    rnd_family = lambda self, ctx: []
+
+    def extra(self, ctx, fam, lines):
+        return tls_trace_check(fam, lines)
+
+
 HOOK_COMMITS = ["8f72140"]
 FIX_COMMITS = ["4a97b3f", "e9415b5", "1d4f62f", "36c0d26", "7942235", "13413be", "756d098"]
 NOT_CLAIMED = {}
 REGISTRY = {"C14": C14(), "C01": C01(), "C05": C05(), "C07": C07(), "C08": C08(), "C09": C09(),
-            "C10": C10(), "C11": C11(), "C18": C18(), "C12": C12(), "C15": C15(), "C19": C19(), "C13": C13(), "C06": C06(), "C16": C16(), "C02": C02(), "C03": C03(), "C04": C04()}
+            "C10": C10(), "C11": C11(), "C18": C18(), "C12": C12(), "C15": C15(), "C19": C19(), "C13": C13(), "C06": C06(), "C16": C16(), "C02": C02(), "C03": C03(), "C04": C04(), "C17": C17()}
